@@ -54,12 +54,17 @@ func reverseWithOptions(forward *NFA, anchored bool) *NFA {
 	// because it creates spurious match paths in the reverse NFA, causing O(n*m) instead of O(m)
 	fwdStartAnchored := forward.StartAnchored()
 	fwdStartUnanchored := forward.StartUnanchored()
-	mapStartStates(builder, reverseEdges, fwdStartAnchored, fwdStartUnanchored, reverseMatchID, revStateMap, anchored)
+	// The unanchored prefix is never part of the reverse automaton: reversed it
+	// would become a trailing (?s:.)* that lets every backward scan run to the
+	// beginning of the haystack. (Before the start state's incoming byte edges
+	// kept their labels, the prefix was mapped for Reverse() but its any-byte
+	// edge degenerated into an epsilon cycle, i.e. it had no effect either.)
+	mapStartStates(builder, reverseEdges, fwdStartAnchored, fwdStartUnanchored, reverseMatchID, revStateMap, true)
 
-	// Allocate placeholder states for all other forward states
-	// When anchored=true, we need to identify and skip unanchored prefix states
+	// Allocate placeholder states for all other forward states,
+	// identifying and skipping the unanchored prefix states
 	unanchoredPrefixStates := make(map[StateID]bool)
-	if anchored && fwdStartUnanchored != fwdStartAnchored {
+	if fwdStartUnanchored != fwdStartAnchored {
 		// Find states that are part of the unanchored prefix (.*?)
 		// These are states reachable from startUnanchored but not from startAnchored
 		unanchoredPrefixStates = findUnanchoredPrefixStates(forward, fwdStartAnchored, fwdStartUnanchored)
@@ -68,7 +73,7 @@ func reverseWithOptions(forward *NFA, anchored bool) *NFA {
 
 	// PASS 2: Fill in actual transitions
 	// Pass anchored flag and skipStates to skip unanchored prefix
-	fillAllTransitions(forward, builder, reverseEdges, fwdStartAnchored, fwdStartUnanchored, reverseMatchID, revStateMap, anchored, unanchoredPrefixStates)
+	fillAllTransitions(forward, builder, reverseEdges, fwdStartAnchored, fwdStartUnanchored, reverseMatchID, revStateMap, true, unanchoredPrefixStates)
 
 	// Build reverse start states from forward match states
 	forwardMatchIDs := collectMatchStates(forward)
@@ -407,41 +412,35 @@ func fillStartStateWithIncoming(builder *Builder, proxyID StateID, edges []rever
 	// If we have incoming edges (from loops), we need to create a split:
 	// proxyID: split -> (transitions from incoming edges), match
 
-	// Collect targets from incoming edges
-	var loopTargets []StateID
+	// Keep the incoming edges whose source exists in the reverse NFA
+	// (the unanchored prefix is skipped for anchored reversal).
+	var kept []reverseEdge
 	for _, edge := range edges {
-		if revTarget, ok := revStateMap[edge.from]; ok {
-			loopTargets = append(loopTargets, revTarget)
+		if _, ok := revStateMap[edge.from]; ok {
+			kept = append(kept, edge)
 		}
 	}
 
-	if len(loopTargets) == 0 {
+	if len(kept) == 0 {
 		// No actual targets, keep the epsilon -> match
 		return
 	}
 
-	// We need to convert the proxy into a split that goes to both:
-	// 1. The loop targets (to continue matching)
-	// 2. The match state (to accept)
+	// Build the state for the incoming edges exactly as for any other state, so
+	// that byte edges keep their labels: for a*b the start state is the loop's
+	// split and its incoming edge from the 'a' transition must still consume an
+	// 'a' in the reverse automaton (an epsilon jump would turn ba* into b).
+	inner := allocatePlaceholder(builder, kept)
+	fillReverseState(builder, inner, kept, revStateMap)
 
-	// For a single loop target: split -> loopTarget, match
-	// For multiple loop targets: split -> split(targets...), match
-	if len(loopTargets) == 1 {
-		// Change proxy from epsilon to split
-		s := &builder.states[proxyID]
-		s.kind = StateSplit
-		s.left = loopTargets[0]
-		s.right = matchID
-		s.next = InvalidState // Clear epsilon target
-	} else {
-		// Multiple loop targets - build a chain
-		loopChain := buildSplitChain(builder, loopTargets)
-		s := &builder.states[proxyID]
-		s.kind = StateSplit
-		s.left = loopChain
-		s.right = matchID
-		s.next = InvalidState
-	}
+	// Convert the proxy into a split that goes to both:
+	// 1. The incoming transitions (to continue matching)
+	// 2. The match state (to accept)
+	s := &builder.states[proxyID]
+	s.kind = StateSplit
+	s.left = inner
+	s.right = matchID
+	s.next = InvalidState // Clear epsilon target
 }
 
 // fillEpsilonState fills a state for pure epsilon transitions
